@@ -8,7 +8,7 @@ CONSTANTS
   NGen = 2
   RestartMult = 0
   TocCap = 1
-  Ahead = 2
+  Ahead = 4
   Confirm = 2
   MaxRound = 3
   MaxToc = 0
